@@ -169,3 +169,27 @@ func (c *checkCtx) engineTV(n int, feat string) {
 	})
 	c.validateTraces("engine", "EngineTrace", "EngineTrace.cfg", traces, traceOpts{})
 }
+
+func init() {
+	plans["C17"] = &plan{
+		level: "model_checking",
+		rule: "TLC enumerates every grammar of the stratified space (s//1, a//1, b//0, two rules each; bodies with terminal lists, a string literal, non-terminals with an argument, sequence, ; and |, {}//1, \\+//1, !//0 " +
+			"as a conjunct of the rule body also in left-nested conjunctions, call//1, if-then-else, push-back) x every input list of length <= NI x {phrase/3 with unbound remainder, phrase/2, generation mode}; the " +
+			"translation of DTR 13211-3 (Dcg.tla) executed by Engine.tla predicts the sequence of (argument, remainder) answers; LanguagePreserved cross-checks it against plain derivation (Parse) on the model; each case " +
+			"is replayed through consult of --> rules and through expand_term/2 + assertz/1. distinct_nontrivial = distinct (grammar, input, mode) cases with at least one answer",
+		assume:  []string{"cut inside a nested disjunction or if-then-else of a grammar body is local in this implementation (the placements C03 excludes) and is not generated"},
+		trusted: []string{"TLC", "Dcg.tla as transcription of DTR 13211-3", "Engine.tla"},
+		run: func(c *checkCtx) {
+			r := c.mcHolds("GenDcg", "GenDcg_"+c.tier+".cfg", tlcOpts{})
+			cases, results := c.replay("dcg", r.cases, replayOpts{})
+			c.judge("dcg", cases, results, func(cs, res map[string]J) string {
+				if evs, _ := cs["events"].([]J); len(evs) > 1 {
+					in, _ := res["input"].(string)
+					return in
+				}
+				return ""
+			})
+			c.exhaustive = true
+		},
+	}
+}
